@@ -295,11 +295,106 @@ def execute(case):
 
 
 def shards(tier):
-    return [{"kind": "seq", "i": i} for i in range(16)]
+    return [{"kind": "seq", "i": i} for i in range(15)] + [{"kind": "bulk_boundary"}]
+
+
+def run_bulk_boundary(res, tier, seed, only=None):
+    """A peer is serving a FULL inventory batch (the real batch size, 500 blocks) as answers; when k of them have arrived --
+    k around the batch size, so the write buffer holds k unflushed blocks -- another peer relays an unsolicited block that is
+    structurally sound but breaks a chain rule.  It must be refused without a trace: not in chain state, not in the write
+    buffer, not in the store after a restart; and a valid block relayed afterwards is stored."""
+    env.import_networking()
+    from vf import simnet, build as b
+    from skepticoin import blockstore as BS
+    from skepticoin.coinstate import CoinState
+    from skepticoin.networking import messages as M, remote_peer as RP
+    from skepticoin.scripts.utils import read_chain_from_disk
+    env.use_fast_pow()
+    env.set_retarget(None, None)
+    batch = RP.GET_BLOCKS_INVENTORY_SIZE
+    world = b.World(R.Config())
+    prev = "g"
+    chain = []
+    for i in range(1, batch + 2):
+        blk = world.build_block({"label": "c%d" % i, "parent": prev, "miner": i % len(KEYS), "dt": 120, "txs": []})
+        if blk is None or world.uni.validate(blk, blk.ts):
+            raise env.HarnessError("cannot build the long chain")
+        world.accept("c%d" % i, blk)
+        chain.append(blk)
+        prev = "c%d" % i
+    ks = [batch - 1, batch, batch - 2, 1, batch // 2] if tier != "quick" else [batch - 1, batch]
+    if only is not None:
+        ks = [only]
+    simnet.install()
+    old_default = BS.DefaultBlockStore.instance
+    try:
+        for k in ks:
+            d = env.fresh_subdir("c09bulk")
+            path = os.path.join(d, "chain.db")
+            with env.quiet():
+                store = BS.BlockStore(path)
+            BS.DefaultBlockStore.instance = store
+            net = simnet.Net()
+            node = net.add("n", "10.0.0.1", CoinState.zero(), 7, disk=simnet.StoreDisk())
+            node.cm.started_at = -10 ** 9
+            w1 = simnet.Wire(net, node, host="10.0.1.10")
+            w1.greet(nonce=501)
+            w2 = simnet.Wire(net, node, host="10.0.1.11")
+            w2.greet(nonce=502)
+            for x in chain[:k]:
+                simnet.CLOCK.now = x.ts + 1
+                w1.send(M.DataMessage(M.DATA_BLOCK, b.to_sk_block(x)), in_response_to=9)
+                w1.deliver()
+            res.evaluations += k
+            bad = world.build_block({"label": "bad%d" % k, "parent": "c%d" % k, "miner": 2, "dt": 120, "txs": [], "reward": {"delta": 1}})
+            if bad is None:
+                raise env.HarnessError("cannot build the rule-breaking block")
+            simnet.CLOCK.now = bad.ts + 1
+            w2.send(M.DataMessage(M.DATA_BLOCK, b.to_sk_block(bad)))
+            w2.deliver()
+            net.drain(None, only=[node])
+            res.evaluations += 1
+            res.nontrivial("bulk_boundary:%d" % k)
+            case = {"bulk_boundary": k}
+            what = "with %d of a %d-block batch served and unflushed, an unsolicited block whose reward is 1 too high" % (k, batch)
+            if net.escaped:
+                res.fail("escape", "exception-escaped-handler", "%s: %s" % (what, net.escaped[0][1]), case)
+            if bad.id() in node.cm.coinstate.block_by_hash:
+                res.fail("state", "invalid-block-in-state:C02", "%s entered chain state" % what, case)
+            if any(x.hash() == bad.id() for x in store.write_buffer):
+                res.fail("store", "write-buffer-not-empty", "%s stayed in the write buffer" % what, case)
+            # a valid block relayed afterwards (by the other peer) must still be stored
+            nxt = chain[0] if chain[0].id() not in node.cm.coinstate.block_by_hash else None
+            if nxt is not None:
+                simnet.CLOCK.now = nxt.ts + 1
+                if not w1.connected:
+                    w1 = simnet.Wire(net, node, host="10.0.1.12")
+                    w1.greet(nonce=503)
+                w1.send(M.DataMessage(M.DATA_BLOCK, b.to_sk_block(nxt)))
+                w1.deliver()
+                net.drain(None, only=[node])
+            # restart
+            store.close()
+            with env.quiet():
+                store2 = BS.BlockStore(path)
+                BS.DefaultBlockStore.instance = store2
+                disk = {x.hash(): x for x in store2.read_blocks_from_disk()}
+                cs = read_chain_from_disk()
+            store2.close()
+            if bad.id() in disk or bad.id() in cs.block_by_hash:
+                res.fail("store", "rejected-block-in-store", "%s was refused, but after a restart it is in the block store / the rebuilt chain state" % what, case)
+            if nxt is not None and nxt.id() not in disk:
+                res.fail("store", "accepted-block-not-in-store", "%s was refused; a valid block relayed afterwards is not in the store after a restart" % what, case)
+    finally:
+        BS.DefaultBlockStore.instance = old_default
+    res.sample({"bulk_boundary": ks, "batch": batch})
+    return res
 
 
 def run(shard, tier, seed):
     res = Result()
+    if shard["kind"] == "bulk_boundary":
+        return run_bulk_boundary(res, tier, seed)
     n = 14 if tier == "quick" else 400
     found = {}
 
@@ -340,4 +435,6 @@ def run(shard, tier, seed):
 
 
 def replay(case):
+    if "bulk_boundary" in case:
+        return run_bulk_boundary(Result(), "quick", 1, only=case["bulk_boundary"]).failures
     return execute(case)[0]
